@@ -3,7 +3,10 @@ import errno
 import json
 import multiprocessing
 import os
+import shutil
 import signal
+import subprocess
+import tempfile
 import time
 
 import nxcheck
@@ -231,7 +234,10 @@ def _jobserver_case(args):
                 raise
         os.close(fd)
         out["exit"] = o["exit"]
-        if left != tokens:
+        if o.get("no_exit_after_signal"):
+            # it had to be SIGKILLed by the orchestrator: what it held is lost by our doing, not counted
+            out["problems"].append("ninja did not exit within 5 s of the signal although every command had ended")
+        elif left != tokens:
             out["problems"].append("%d jobserver token(s) in the FIFO after ninja exited (exit %s), %d before" % (left, o["exit"], tokens))
         if o.get("hang"):
             out["problems"].append("ninja waits forever although tokens are available")
@@ -247,6 +253,137 @@ def _jobserver_case(args):
     finally:
         r.kill_strays()
         r.close()
+    return out
+
+
+# ---- jobserver x (manifest regeneration, a command whose completion cannot be processed) -------------------
+# Plain shell commands with generous sleeps: every command appends "S <name>" / "E <name>" with a timestamp to a log,
+# the orchestrator samples the FIFO (read everything, write it back) every 50 ms.  Three clauses:
+#   running commands <= tokens ninja holds (+1 implicit) at every sample and over the whole log,
+#   all tokens back after exit, on every path.
+JS_EXTRA = {
+    # the commands that bring the manifest up to date obey the jobserver like any others
+    "jobserver/manifest_regen": ("""rule slow
+  command = echo S $out $$(date +%s.%N) >> log; sleep 0.4; echo E $out $$(date +%s.%N) >> log; touch $out
+rule regen
+  command = touch build.ninja
+  generator = 1
+build g1: slow
+build g2: slow
+build g3: slow
+build build.ninja: regen g1 g2 g3
+build x: slow
+default x
+""", 0, []),
+    # a restat command succeeds but its output cannot be stat'ed afterwards (symlink loop): FinishCommand fails
+    "jobserver/finish_fails_token": ("""rule slow
+  command = echo S $out $$(date +%s.%N) >> log; sleep 0.8; echo E $out $$(date +%s.%N) >> log; touch $out
+rule loop
+  command = sleep 0.2; ln -sf $out $out
+  restat = 1
+build a: slow
+build b: loop
+build all: phony a b
+default all
+""", 1, []),
+    # ... and with the failing command on the implicit slot: the other command keeps its token while it still runs
+    "jobserver/finish_fails_running": ("""rule slow
+  command = echo S $out $$(date +%s.%N) >> log; sleep 0.8; echo E $out $$(date +%s.%N) >> log; touch $out
+rule loop
+  command = sleep 0.2; ln -sf $out $out
+  restat = 1
+build b: loop
+build a1: slow
+build a2: slow
+build all: phony a1 a2 b
+default all
+""", 2, []),
+}
+
+
+def _js_extra_case(args):
+    name, ninja = args
+    manifest, tokens, nargs = JS_EXTRA[name]
+    root = tempfile.mkdtemp(prefix="rbjs.", dir=rb.SHM)
+    out = {"scenario": name, "scenario_json": {"name": name, "js_extra": True}, "opi": 0, "tokens": tokens, "op": "ninja " + " ".join(nargs),
+           "choices": [], "signal_at": None, "problems": []}
+    try:
+        wd = os.path.join(root, "w")
+        os.mkdir(wd)
+        with open(os.path.join(wd, "build.ninja"), "w") as f:
+            f.write(manifest)
+        past = time.time() - 100
+        os.utime(os.path.join(wd, "build.ninja"), (past, past))
+        fifo = os.path.join(root, "js.fifo")
+        os.mkfifo(fifo)
+        fd = os.open(fifo, os.O_RDWR | os.O_NONBLOCK)
+        os.write(fd, b"+" * tokens)
+        env = dict(os.environ, MAKEFLAGS=" -j%d --jobserver-auth=fifo:%s" % (tokens + 1, fifo))
+        p = subprocess.Popen([ninja] + nargs, cwd=wd, env=env, stdout=subprocess.PIPE, stderr=subprocess.STDOUT)
+
+        def count():
+            try:
+                b = os.read(fd, 4096)
+            except BlockingIOError:
+                b = b""
+            if b:
+                os.write(fd, b)
+            return len(b)
+
+        def running_now():
+            try:
+                lines = open(os.path.join(wd, "log")).read().split("\n")
+            except OSError:
+                return 0
+            run = set()
+            for l in lines:
+                w = l.split()
+                if len(w) >= 2:
+                    (run.add if w[0] == "S" else run.discard)(w[1])
+            return len(run)
+        t_end = time.time() + 30
+        worst = None
+        while p.poll() is None and time.time() < t_end:
+            time.sleep(0.05)
+            r1 = running_now()
+            free = count()
+            r2 = running_now()
+            held = tokens - free
+            # a command seen running both before and after the sample was running during it
+            if min(r1, r2) > held + 1 and worst is None:
+                worst = "%d commands running while ninja held %d of %d tokens (+1 implicit)" % (min(r1, r2), held, tokens)
+        if p.poll() is None:
+            p.kill()
+            out["problems"].append("ninja did not finish within 30 s")
+        p.wait()
+        out["exit"] = p.returncode
+        if worst:
+            out["problems"].append(worst)
+        # over the whole log: maximal overlap
+        ev = []
+        try:
+            for l in open(os.path.join(wd, "log")).read().split("\n"):
+                w = l.split()
+                if len(w) >= 3:
+                    ev.append((float(w[2]), 1 if w[0] == "S" else -1))
+        except OSError:
+            pass
+        ev.sort()
+        cur = mx = 0
+        for _, dlt in ev:
+            cur += dlt
+            mx = max(mx, cur)
+        out["max_running"] = mx
+        if mx > tokens + 1:
+            out["problems"].append("%d logged commands ran at the same time with %d tokens (+1 implicit)" % (mx, tokens))
+        left = count()
+        if left != tokens:
+            out["problems"].append("%d jobserver token(s) in the FIFO after ninja exited (exit %s), %d before" % (left, p.returncode, tokens))
+        os.close(fd)
+    except Exception as e:  # noqa
+        out["problems"].append("exception: %r" % (e,))
+    finally:
+        shutil.rmtree(root, ignore_errors=True)
     return out
 
 
@@ -283,6 +420,7 @@ def jobserver(tier="quick"):
                 work.append((sc, tokens, 0, choices, None, ninja, vcmd, j))
     with multiprocessing.Pool(16) as pool:
         res = pool.map(_jobserver_case, work, chunksize=1)
+        res += pool.map(_js_extra_case, [(n, ninja) for n in sorted(JS_EXTRA)], chunksize=1)
     return {"cases": len(res), "problems": [r for r in res if r["problems"]],
             "max_running_seen": max([r.get("max_running", 0) for r in res] + [0]),
             "sample": [{k: r[k] for k in ("scenario", "tokens", "op", "choices", "signal_at")} for r in res[:3]]}
